@@ -398,7 +398,7 @@ def partner_for(path, node):
 
 
 def string_breaks(s):
-    return ["_" + s, s + ".x", s + ":x", s + "{x", s + "}", "", s + "\n", "\n" + s, "$_" + s.lstrip("$"), "$." + s.lstrip("$"),
+    return [s[:3], s[1:], s[:1], s[-4:], s + s, "_" + s, s + ".x", s + ":x", s + "{x", s + "}", "", s + "\n", "\n" + s, "$_" + s.lstrip("$"), "$." + s.lstrip("$"),
             "$" + s.lstrip("$"), s.lstrip("$"), s.lower(), "ZZZ", "AND", "EQUALS", "RUNTIME", "#12345", "#1234567", "#ggg",
             "#abc\n", "$_item", "$_item.x", "$_itemx", "$_object.x", "$", "$\n", "$a\nb"]
 
@@ -716,6 +716,33 @@ def twin_cases(repo_root):
                 cases.append({"doc": d, "kind": "twin:attribute", "base": name,
                               "path": "object_types[%d].attributes[%s] EDGE without object_type, same keys as a conformant plain attribute" % (ti, pos), "inert": False})
             break
+    return cases
+
+
+def short_array_cases(repo_root):
+    """Every array position class (path with the indices removed) once over all base documents: the array emptied and
+    cut to one element; plus an extra object type that nothing refers to with an empty attribute list (so that a
+    missing minimum-length check is the document's only defect)."""
+    cases, seen = [], set()
+    for name, doc in base_documents(repo_root):
+        for (path, parent, key, node) in locations(doc):
+            if not isinstance(node, list) or not path:
+                continue
+            cls = tuple(p for p in path if isinstance(p, str))
+            if cls in seen:
+                continue
+            seen.add(cls)
+            for keep in (0, 1):
+                if len(node) <= keep:
+                    continue
+                d = copy.deepcopy(doc)
+                set_at(d, path, copy.deepcopy(node[:keep]))
+                cases.append({"doc": d, "kind": "short_array:%d" % keep, "base": name, "path": show(path), "inert": False})
+        if isinstance(doc.get("object_types"), list):
+            ids = [t.get("id") for t in doc["object_types"] if isinstance(t, dict) and isinstance(t.get("id"), int)]
+            d = copy.deepcopy(doc)
+            d["object_types"].append({"id": max(ids + [0]) + 77, "name": "unused type without attributes", "attributes": []})
+            cases.append({"doc": d, "kind": "short_array:unused_type", "base": name, "path": "object_types[+].attributes", "inert": False})
     return cases
 
 
